@@ -47,8 +47,6 @@ def configs(tier):
             for leaders in range(0, 3):
                 if leaders > peers or leaders > nleaders:
                     continue
-                if tier == 'quick' and (peers > 2 or leaders > 1):
-                    continue
                 for need_author in (False, True):
                     out.append((peers, leaders, need_author, author_leader))
     return out
